@@ -108,8 +108,9 @@ CLAIMED = {
               "converted documents and on picosvgs written around the viewBox (shapes over each border and corner, bounding boxes "
               "that reach in while the geometry does not, groups the clip empties); the result must be a picosvg per Spec.Pico."),
         note=("Trusted: Lean kernel; propext/Classical.choice/Quot.sound; harness/render.py and geom.py; Spec/Pico.lean; Skia "
-              "bounds and op (hypotheses, sampled). Group flattening after the clip is covered by the judges only. One repaired "
-              "defect (547b2dc), see known_findings.json."),
+              "bounds and op (hypotheses, sampled). Group flattening after the clip is covered by the judges only. Repaired "
+              "defects and one recorded finding (a gradient in bounding-box units is stretched over the cut shape: the colours "
+              "inside the viewBox change), see known_findings.json."),
         technique="Lean 4 proof (order reasoning, induction on the shape list) + exact Fraction/Rat correspondence + independent renderer search",
         ref="DESIGN.md §4 C19"),
     "C18": dict(
@@ -186,8 +187,8 @@ CLAIMED = {
               "every converted document from a generator that stresses shared references and colliding generated ids; the pipeline "
               "model is tied to the code on the same documents."),
         note=("Trusted: Lean kernel; core axioms only; harness reference checker; lxml. Defects repaired: orphans after pruning, paint "
-              "reference forms, text stroke gradients. Two recorded findings (known_findings.json, KNOWN-FINDING on every run): a paint "
-              "reference to a pattern element and a gradient written inside an anonymous symbol are left dangling. "
+              "reference forms, text stroke gradients, gradients inside anonymous symbols. One recorded finding (known_findings.json, KNOWN-FINDING on "
+              "every run): a paint reference to a pattern element is left dangling. "
               "Observed and recorded in DESIGN: nested svg inside nested svg allocates the same viewport clip id twice and the "
               "conversion raises ValueError (no converted document, hence outside this property)."),
         technique="Lean 4 proof (induction over the id search, list membership) + pipeline correspondence + reference-graph search",
